@@ -432,6 +432,11 @@ class remove:
     def ensures(old, s, a, result):
         n = length(old.items)
         i = first_index(old, s, a.value)
+        if i is None:
+            # the body did not perform `list.remove(value)` (the ghost trace records no removed index): the clauses below
+            # cannot be stated -- an obligation that fails, not a crash of the contract
+            yield "one-list-remove-of-the-callers-value", False
+            return
         yield "removed-an-equal-item", both(0 <= i, i < n, eq(item_at(old.items, i), a.value))
         yield from mutator_post(old, s, (i, i + 1, 1), 0, "remove", (a.value,))
 
